@@ -79,7 +79,7 @@ Arguments ed_num_steps {E L}.
         inputs.append(self.events_to_input(events, i))
         labels.append(self.events_to_label(events, i + 1))
       return inputs, labels *)
-Definition encode_with {E L} (inp : Z -> option (list Z)) (lab : Z -> option L) (len : Z)
+Definition encode_with {L} (inp : Z -> option (list Z)) (lab : Z -> option L) (len : Z)
   : option (list (list Z) * list L) :=
   ps <- opt_all (map (fun i => x <- inp i ;; l <- lab (i + 1) ;; Some (x, l)) (zrange (len - 1))) ;;
   Some (map fst ps, map snd ps).
@@ -130,7 +130,7 @@ End OneHotSeq.
 
 (** * ConditionalEventSequenceEncoderDecoder *)
 Section Conditional.
-  Variables C LC T LT : Type.
+  Context {C LC T LT : Type}.
   Variable ctl : encdec C LC.
   Variable tgt : encdec T LT.
 
